@@ -217,6 +217,11 @@ def run_ops(sess, ops, B=None):
                     rec['ok'] = False
                     rec['exc'] = type(e).__name__
                     rec['msg'] = str(e)[:200]
+            elif kind == 'delete_file':
+                try:
+                    os.remove('__' + sess['model'] + '.iter')
+                except FileNotFoundError:
+                    pass
             elif kind == 'write_file':
                 with open('__' + sess['model'] + '.iter', 'wb') as f:
                     f.write(op['content'].encode('latin-1'))
@@ -409,7 +414,6 @@ def session_kill(sess):
                 B.calculate_likelihood_and_derivatives(np.array([unhex(v) for v in x]), scaled=False)
                 i += 1
 
-        r, w = os.pipe()
         pid = os.fork()
         if pid == 0:
             try:
